@@ -170,6 +170,77 @@ fn placements() -> Vec<Case> {
 }
 
 
+/// A later import of a module is a lookup: it changes nothing in that module.  The module defines
+/// globals under names that built-ins also have (a variable `clock`, a function `type`, a class `Error`
+/// with a static method) and the importer stores an attribute under a built-in's name (`print`); after
+/// every further import - under an alias, inside a function, inside a fiber, inside try, through another
+/// module - the module's own functions and the importer still see the module's definitions, and the
+/// importer's own built-ins are the built-ins.
+fn reimport_changes_nothing() -> Vec<Case> {
+    let mut out = Vec::new();
+    let shadow_body = || -> Vec<Stmt> {
+        vec![
+            print_stmt(s("load shadow")),
+            var_stmt("clock", s("shadow's clock")),
+            fn_stmt(func("type", &["x"], vec![st(StmtKind::Return(Some(s("shadow's type"))))])),
+            class_stmt("Error", None, None, vec![method(FnKind::Static, "which", &[], vec![st(StmtKind::Return(Some(s("shadow's Error"))))])]),
+            var_stmt("count", num(0.0)),
+            fn_stmt(func(
+                "report",
+                &[],
+                vec![
+                    expr_stmt(assign("count", bin(BinOp::Add, var("count"), num(1.0)))),
+                    st(StmtKind::Return(Some(Expr::VecLit(vec![var("count"), var("clock"), call(var("type"), vec![num(1.0)]), invoke(var("Error"), "which", vec![])])))),
+                ],
+            )),
+        ]
+    };
+    let via_body = || -> Vec<Stmt> { vec![print_stmt(s("load via")), st(StmtKind::Import("shadow".into(), None)), fn_stmt(func("ask", &[], vec![st(StmtKind::Return(Some(invoke(var("shadow"), "report", vec![]))))]))] };
+    let look = |m: &str| -> Vec<Stmt> {
+        vec![
+            st(StmtKind::Try(
+                vec![print_stmt(invoke(var(m), "report", vec![])), print_stmt(get(var(m), "clock")), print_stmt(call(get(var(m), "type"), vec![num(2.0)])), print_stmt(get(var(m), "print")), print_stmt(get(var(m), "extra"))],
+                Some(("e".into(), vec![print_stmt(Expr::Interp(vec![Part::Lit("look failed: ".into()), Part::Expr(call(var("type"), vec![var("e")]))]))])),
+                None,
+            )),
+            // the importer's own names are the built-ins
+            print_stmt(call(var("type"), vec![num(3.0)])),
+            print_stmt(bin(BinOp::Eq, var("clock"), get(var(m), "clock"))),
+        ]
+    };
+    let reimports: Vec<(&str, Vec<Stmt>)> = vec![
+        ("alias", vec![st(StmtKind::Import("shadow".into(), Some("again".into()))), print_stmt(bin(BinOp::Eq, var("again"), var("shadow")))]),
+        ("same_name", vec![st(StmtKind::Import("shadow".into(), None))]),
+        ("in_function", vec![fn_stmt(func("later", &[], vec![st(StmtKind::Import("shadow".into(), None)), st(StmtKind::Return(Some(var("shadow"))))])), print_stmt(bin(BinOp::Eq, call(var("later"), vec![]), var("shadow")))]),
+        ("in_fiber", vec![print_stmt(bin(BinOp::Eq, invoke(invoke(var("Fiber"), "new", vec![lambda_block(&[], vec![st(StmtKind::Import("shadow".into(), None)), st(StmtKind::Return(Some(var("shadow"))))])]), "call", vec![]), var("shadow")))]),
+        ("in_try", vec![st(StmtKind::Try(vec![st(StmtKind::Import("shadow".into(), Some("t".into()))), print_stmt(bin(BinOp::Eq, var("t"), var("shadow")))], Some(("e".into(), vec![print_stmt(s("import failed"))])), None))]),
+        ("through_another_module", vec![st(StmtKind::Import("via".into(), None)), print_stmt(invoke(var("via"), "ask", vec![]))]),
+    ];
+    for first in 0..reimports.len() {
+        for second in 0..reimports.len() {
+            let mut main = vec![st(StmtKind::Import("shadow".into(), None))];
+            main.extend(look("shadow"));
+            // attributes stored from outside: one under a built-in's name, one new
+            main.push(expr_stmt(set(var("shadow"), "print", s("print replaced from outside"))));
+            main.push(expr_stmt(set(var("shadow"), "extra", s("extra from outside"))));
+            main.push(expr_stmt(set(var("shadow"), "clock", s("clock changed from outside"))));
+            main.extend(look("shadow"));
+            main.extend(reimports[first].1.clone());
+            main.extend(look("shadow"));
+            if second != first {
+                main.extend(reimports[second].1.clone());
+                main.extend(look("shadow"));
+            }
+            let mut c = Case::new("reimport_changes_nothing", main);
+            c.modules.insert("shadow".to_string(), ModuleSource { program: Some(shadow_body()), compile_error: false });
+            c.modules.insert("via".to_string(), ModuleSource { program: Some(via_body()), compile_error: false });
+            c.opts = CmpOpts { trace: false, kind: false };
+            out.push(c);
+        }
+    }
+    out
+}
+
 // ---- exceptions that cross module frames: the importer catches what a module body, or a function
 // ---- defined in another module, threw, and then goes on using its own globals
 #[derive(Clone, Copy, Debug, PartialEq)]
@@ -346,7 +417,7 @@ fn crossings() -> Vec<Case> {
 
 pub fn cases_for_c01(thorough: bool) -> Vec<Case> {
     let graphs = (0..(1usize << 12)).filter(|b| (b >> 9) != 0 && (thorough || b % 16 == 5)).map(graph_case);
-    placements().into_iter().chain(crossings()).chain(fibers_from_other_modules()).chain(graphs).collect()
+    placements().into_iter().chain(reimport_changes_nothing()).chain(crossings()).chain(fibers_from_other_modules()).chain(graphs).collect()
 }
 
 pub fn run(ctx: &Ctx) -> Report {
@@ -356,7 +427,7 @@ pub fn run(ctx: &Ctx) -> Report {
     // quick: every graph whose module-to-module part is arbitrary and main imports a non-empty subset
     let total = 1usize << 12;
     let graphs = (0..total).filter(move |b| thorough || (b >> 9) != 0).map(graph_case);
-    let cases = placements().into_iter().chain(crossings()).chain(fibers_from_other_modules()).chain(graphs);
+    let cases = placements().into_iter().chain(reimport_changes_nothing()).chain(crossings()).chain(fibers_from_other_modules()).chain(graphs);
     let hooks = Hooks {
         attribute: &|_c, _m, _o, _mm| None,
         nontrivial: &|c, m| c.modules.len() >= 2 && m.out.iter().filter(|l| l.starts_with("load ")).count() >= 2 || m.out.iter().any(|l| l.contains("failed")) || matches!(m.outcome, Outcome::Uncaught(_)),
@@ -366,7 +437,7 @@ pub fn run(ctx: &Ctx) -> Report {
     mcheck::fill_report(
         &mut report,
         &stats,
-        "every import graph over {main, a, b, c}: each of the 6 module-to-module edges, 3 self-loops and 3 edges from main independently present or absent (4096 graphs; the quick tier skips those where main imports nothing); every import inside a module sits in its own try/catch and is followed by a use; every module prints when its body runs, defines the same global names, and reads every one of the 30 built-in names; main reads, writes and calls through each module object, imports it again under an alias and compares identity, and probes that nothing leaked. Plus placements: import inside a function called 0/1/2 times, missing and uncompilable modules (caught, uncaught, aliased), a path with a directory, a three-module cycle. Plus exceptions that cross module frames: a module body that throws / imports a missing, an uncompilable, its importing (cycle) or a throwing module without a handler, or a function of another module that throws / fails an import / throws through its own finally; caught in the importer (main or a module) directly, through a function, or after a finally block that itself uses globals; straight after the handler the importer reads, defines and assigns its own globals and the check confirms where they landed. Plus fibers whose code lives in another module (made by a function of that module, stored in it, or built here from its function), run to their end from main or from a module that then uses its own globals at once. non-trivial = at least two module bodies ran, or an import failed.",
+        "every import graph over {main, a, b, c}: each of the 6 module-to-module edges, 3 self-loops and 3 edges from main independently present or absent (4096 graphs; the quick tier skips those where main imports nothing); every import inside a module sits in its own try/catch and is followed by a use; every module prints when its body runs, defines the same global names, and reads every one of the 30 built-in names; main reads, writes and calls through each module object, imports it again under an alias and compares identity, and probes that nothing leaked. Plus placements: import inside a function called 0/1/2 times, missing and uncompilable modules (caught, uncaught, aliased), a path with a directory, a three-module cycle. Plus `reimport_changes_nothing`: a module that defines globals under names built-ins also have and receives attributes from outside, imported again in every ordered pair of six ways (alias, same name, in a function, in a fiber, in try, through another module) with the module's and the importer's view printed after each. Plus exceptions that cross module frames: a module body that throws / imports a missing, an uncompilable, its importing (cycle) or a throwing module without a handler, or a function of another module that throws / fails an import / throws through its own finally; caught in the importer (main or a module) directly, through a function, or after a finally block that itself uses globals; straight after the handler the importer reads, defines and assigns its own globals and the check confirms where they landed. Plus fibers whose code lives in another module (made by a function of that module, stored in it, or built here from its function), run to their end from main or from a module that then uses its own globals at once. non-trivial = at least two module bodies ran, or an import failed.",
         json!({"modules": 4, "graphs": total}),
     );
     report.assumptions = vec!["importing a module again after its body threw is outside the property's statement and outside the alphabet (X)".into()];
